@@ -1568,12 +1568,14 @@ class GetExecutionOrder(C03Contract):
 
     @property
     def loops(self):
-        L1 = Loop(inv=self._inv1, fresh={}, modifies=lambda s, l: [v for v in vars(l).values() if isinstance(v, SNodeSet)])
+        def dep_is_spec(s, l):
+            # explicit lemma step (proved here as its own obligation, then used): the graph the code queries has the edge relation of the spec's dependency graph
+            d1 = self._dep(s).snap()
+            s.rt.vc.cut('the dependency graph built by the code = G minus the nodes that have an output',
+                        s.th.forall_nodes(lambda u, v: d1.edge(u, v) == s.anc.E(u, v), 2))
+        L1 = Loop(inv=self._inv1, fresh={}, modifies=lambda s, l: [v for v in vars(l).values() if isinstance(v, SNodeSet)], on_head=dep_is_spec)
         return {0: Loop(inv=self._inv0, modifies=lambda s, l: [self._dep(s)], snapshot=lambda s, l: dict(d=self._dep(s).snap(), h=s.H.snap())),
                 1: L1}
-
-    def _miss(self, s):
-        return z3.And(z3.Not(s.cache.stored0 is s.cache.stored and s.cache.hit if False else z3.BoolVal(False)))
 
     def raises(self, s):
         th, g, h = s.th, s.g0, s.h0
